@@ -9,8 +9,8 @@ from __future__ import annotations
 import math
 
 from .. import wire, gen, common, routes
-from ..core import call, sm, X, Report, write_evidence
-from ..engine import NumCase, ExprCase, judge_numeric, judge_expr
+from ..core import call, sm, X, Report, write_evidence, Batch
+from ..engine import NumCase, ExprCase, judge_numeric, judge_expr, widen, _num_answer
 from . import c02
 
 PID = "C06"
@@ -110,6 +110,21 @@ def check_cases(cases: list[dict], rep: Report, known: dict) -> None:
             if not close(ref.impl, nc.impl, tol):
                 bad = (ref, nc)
                 break
+        if bad and bad[0].impl[0] == "ok" and bad[1].impl[0] == "ok":
+            # maybe a zero test on a rounded value hid the error bound of one route: ask the
+            # guard-decision variants of both routes and use their most pessimistic bounds
+            vb = Batch()
+            ii = [[vb.ask(f"F{k} " + z.suffix) for k in (1, 2, 3)] for z in bad]
+            vb.run()
+            tol = 1e-300
+            for z, idx in zip(bad, ii):
+                a0 = _num_answer(z.info["model_F0"])
+                w = widen(a0, [_num_answer(vb[i]) for i in idx])
+                if w[0] == "ok":
+                    tol += 64 * w[1].err + 64 * 2.3e-16 * abs(w[1].v)
+            if close(bad[0].impl, bad[1].impl, tol):
+                rep.count("verdicts", "routes-agree-after-widening")
+                bad = None
         if bad:
             info = dict(c, routes={nc.info["route"]: nc.info["impl"] for nc in group})
             if k1_explains(c, e, p):
